@@ -49,7 +49,9 @@ ParseInt(cells, signed, dflt) ==
   IN IF ok THEN (IF neg THEN -mag ELSE mag) ELSE dflt
 
 (* ---- style: the part of ComputedStyle the renderer reads ---- *)
-NoSty == [pre |-> FALSE, ws |-> "", fg |-> <<>>, bg |-> <<>>, none |-> FALSE]
+\* (cset: the ::before / ::after texts cb, ca were computed by the cascade of Css.tla; otherwise only the
+\*  do_decorate() rules can apply and the marks are taken from DecoMark)
+NoSty == [pre |-> FALSE, ws |-> "", fg |-> <<>>, bg |-> <<>>, none |-> FALSE, cset |-> FALSE, cb |-> <<>>, ca |-> <<>>]
 StyOf(n) == IF "sty" \in DOMAIN n THEN n.sty ELSE NoSty
 
 (* ---- render nodes ---- *)
@@ -201,9 +203,11 @@ ToRender(n, cf) ==
                [] nm = "dd" -> << Node("Dd", sty, cs) >>
                [] OTHER -> NE(Node("Container", sty, cs))
            mark == IF cf.decorate /\ n.h THEN DecoMark(n) ELSE <<>>
-           wrapped == IF mark # <<>> /\ res # <<>>
-                      THEN << InsertChild(TextNode(mark), InsertChild(TextNode(mark), res[1], TRUE), FALSE) >>
-                      ELSE res
+           before == IF sty.cset THEN sty.cb ELSE mark
+           after == IF sty.cset THEN sty.ca ELSE mark
+           \* wrap_nodes: ::before text first child, then ::after text last child
+           w1 == IF before # <<>> /\ res # <<>> THEN << InsertChild(TextNode(before), res[1], TRUE) >> ELSE res
+           wrapped == IF after # <<>> /\ w1 # <<>> THEN << InsertChild(TextNode(after), w1[1], FALSE) >> ELSE w1
            frag == FragName(n)
        IN IF IsNull(frag) THEN wrapped
           ELSE IF wrapped = <<>> THEN << FragNode(frag.name) >>
